@@ -123,6 +123,13 @@ func (c *Ctx) Dir(name string) string {
 	return d
 }
 
+// DirI returns a scratch directory that belongs to case i; it is removed when the case function returns.
+func (c *Ctx) DirI(i int, name string) string {
+	d := filepath.Join(c.Scratch, fmt.Sprintf("case%d", i), name)
+	_ = os.MkdirAll(d, 0o755)
+	return d
+}
+
 func (c *Ctx) Eval(n int) {
 	c.mtx.Lock()
 	c.evals += int64(n)
@@ -225,7 +232,12 @@ func firstLine(s string) string {
 }
 
 // Parallel runs fn(i) for i in [0,n) on up to `workers` goroutines (respecting replay filter).
-func (c *Ctx) Parallel(n, workers int, fn func(i int)) {
+func (c *Ctx) Parallel(n, workers int, fn func(i int)) { c.parallel(n, workers, fn, true) }
+
+// ParallelInner is for fan-out inside one case: its indices are not case numbers, nothing is cleaned up.
+func (c *Ctx) ParallelInner(n, workers int, fn func(i int)) { c.parallel(n, workers, fn, false) }
+
+func (c *Ctx) parallel(n, workers int, fn func(i int), clean bool) {
 	if workers <= 0 {
 		workers = runtime.NumCPU()
 	}
@@ -237,11 +249,14 @@ func (c *Ctx) Parallel(n, workers int, fn func(i int)) {
 			defer wg.Done()
 			for i := range ch {
 				fn(i)
+				if clean {
+					_ = os.RemoveAll(filepath.Join(c.Scratch, fmt.Sprintf("case%d", i)))
+				}
 			}
 		}()
 	}
 	for i := 0; i < n; i++ {
-		if c.Only >= 0 && i != c.Only {
+		if clean && c.Only >= 0 && i != c.Only {
 			continue
 		}
 		ch <- i
